@@ -29,12 +29,44 @@ def main(repo_root="/repo"):
     rep = vcgen.verify_function(api.make_ctx, reg, q)
     if rep.undecided or not rep.obligations or any(o.verdict != "proved" for o in rep.obligations):
         bad.append("correct contract not proved")
+    bad += backend_guard()
     if bad:
         for b in bad:
             print("SELFTEST-FAILED: " + b)
         return 3
     print("selftest ok")
     return 0
+
+
+def backend_guard():
+    """the solver behind the binding conflates distinct lambda arguments of recursive functions (z3 5.1: the query below
+    is answered unsat although y = 1 makes the two sums differ by 6).  discharge() must not be fooled: with lambda
+    lifting the false goal is not proved, and a true goal over the same terms still is."""
+    import z3
+    from . import smt
+    I, R = z3.IntSort(), z3.RealSort()
+    V = z3.ArraySort(I, R)
+    vs = z3.RecFunction("selftest_vsum", V, I, I, R)
+    aa, lo, hi = z3.Const("st!aa", V), z3.Int("st!lo"), z3.Int("st!hi")
+    z3.RecAddDefinition(vs, [aa, lo, hi], z3.If(hi <= lo, 0, vs(aa, lo, hi - 1) + aa[hi - 1]))
+    x, y, i = z3.Array("st!x", I, R), z3.Array("st!y", I, R), z3.Int("st!i")
+    l1, l2 = z3.Lambda([i], x[i] + y[i]), z3.Lambda([i], x[i] - y[i])
+
+    class Ob:
+        model = None
+        note = None
+    out = []
+    ob = Ob()
+    ob.goal, ob.pc = vs(l1, 0, 3) == vs(l2, 0, 3), [y[0] == 1, y[1] == 1, y[2] == 1]
+    smt.discharge(ob, [], timeout_ms=5000, use_cvc5=False)
+    if ob.verdict == "proved":
+        out.append("back-end guard: a false goal over two distinct lambda arguments was 'proved'")
+    ob = Ob()
+    ob.goal, ob.pc = vs(l1, 0, 3) + vs(l2, 0, 3) == 2 * (x[0] + x[1] + x[2]), []
+    smt.discharge(ob, [], timeout_ms=5000, use_cvc5=False)
+    if ob.verdict != "proved":
+        out.append("back-end guard: a true goal over lifted lambdas was not proved (%s)" % ob.verdict)
+    return out
 
 
 if __name__ == "__main__":
